@@ -83,6 +83,10 @@ CLAIMED = {
    text="Order dependence can only arise in loops over the SAN lists / Extensions or by positional indexing, and those are examined exhaustively: for each of the ~65 outermost loops reachable from a lint whose iterated collection derives from a SAN list, GetParsedDNSNames, the re-parsed SAN value or Extensions, the set of verdicts of its early exits (statuses by interprocedural status-flow, plus 'break') must have at most one element; loop-carried status/result variables may be assigned at most one status; the unique-selector idiom over Extensions is exempt; util.GetExtFromCert looks up by OID and nothing indexes these lists with a constant. Eight genuine violations (NA vs finding at the first unparseable DNS name) are known findings, one reviewed exception (dead NA branch in e_ext_san_empty_name). Order dependence through position arithmetic or non-status helper results is not examined.",
    note=TRUST+"The parser only hands over extensions whose GeneralNames are well-formed (basis of the single exception).",
    technique="natural-loop analysis over go/ssa: early-exit verdict sets via status-flow; loop-carried value classification; index census", ref="§3 C17"),
+ "C20": dict(level="other",
+   text="For each of the 23 duplicated-rule pairs named by the property the behaviour fingerprints of CheckApplies and Execute (resolved callees with constant arguments, comparisons and arithmetic against constants, certificate fields read, statuses, assertions, loops; same-package helpers folded in) are compared under the pair's declared relation — mirror after field/OID renaming, RFC copy contained in BR copy, equal up to severity, equal, companion (one threshold constant + status, warning limit ≤ error limit, same applicability/source, warning window ⊇ error window). An edit to one copy only is reported with the differing features; the one drift present on the pinned tree (IAN copy of the URI-host rule) is a known finding with a demonstrated disagreeing input. Fingerprint agreement is a strong necessary condition for the two copies to agree, not a proof of behavioural equality.",
+   note=TRUST+"The pair table is taken from the property's anchors and confirmed by reading; shared helpers (util/fqdn.go, apple/time.go) count as one callee on both sides.",
+   technique="sibling cross-check: normalised behaviour fingerprints over go/ssa compared under declared renamings", ref="§3 C20"),
 }
 
 NOT_YET = "check not built yet in this session (see DESIGN.md §3 for the planned static rule)"
